@@ -95,13 +95,22 @@ Definition move_rule (d : list (key * value)) (old new : string) : list (key * v
   | None => d
   end.
 
+(* _canonicalize_rule_names for one rules set: rule names written with spaces get underscores (first pass of expand) *)
+Definition canon_rules (rules : value) : value :=
+  match rules with
+  | VDict d =>
+      let spaced := flat_map (fun k => match k with KStr s => if has_space s then [s] else [] | _ => [] end) (map fst d) in
+      VDict (fold_left (fun d s => move_rule d s (spaces_to_underscores s)) spaced d)
+  | _ => rules          (* not a mapping (a registry reference, or ill-formed): left to schema validation *)
+  end.
+
+Definition canon_all (schema : list (key * value)) : list (key * value) :=
+  map (fun kv => (fst kv, canon_rules (snd kv))) schema.
+
 (* _rename_deprecated_rulenames for one rules set; RuntimeError when both names are present *)
 Definition rename_rules (rules : value) : res value :=
   match rules with
-  | VStr _ => Ok rules
   | VDict d =>
-      let spaced := flat_map (fun k => match k with KStr s => if has_space s then [s] else [] | _ => [] end) (map fst d) in
-      let d1 := fold_left (fun d s => move_rule d s (spaces_to_underscores s)) spaced d in
       (fix go (pairs : list (string * string)) (d : list (key * value)) : res value :=
          match pairs with
          | [] => Ok (VDict d)
@@ -109,9 +118,8 @@ Definition rename_rules (rules : value) : res value :=
              if negb (assoc_mem (KStr old) d) then go ps d
              else if assoc_mem (KStr new) d then Raise RuntimeError "_rename_deprecated_rulenames"
              else go ps (move_rule d old new)
-         end) deprecated d1
-  | VList _ => Ok rules       (* strings inside are not renamed; `old in rules` is a membership test: no rename *)
-  | _ => Raise TypeError "_rename_deprecated_rulenames"
+         end) deprecated d
+  | _ => Ok rules        (* not a mapping (a registry reference, or ill-formed): skipped, left to schema validation *)
   end.
 
 Fixpoint rename_all (schema : list (key * value)) : res (list (key * value)) :=
@@ -201,9 +209,9 @@ Section WithRec.
     | (f, other) :: rest => do rest' <- sub_fields rest; Ok ((f, other) :: rest')
     end.
 
-  (* step 1: shorthands of every field; step 2: sub-structures of every field (failures swallowed); step 3: renaming *)
+  (* step 0: spaces in rule names; step 1: shorthands of every field; step 2: sub-structures of every field (failures swallowed); step 3: renaming *)
   Definition expand_step (schema : list (key * value)) : res (list (key * value)) :=
-    let '(s1, ok1) := expand_shortcuts schema in
+    let '(s1, ok1) := expand_shortcuts (canon_all schema) in
     do s2 <- (if ok1 then sub_fields s1 else Ok s1);
     rename_all s2.
 End WithRec.
